@@ -85,7 +85,7 @@ variable (b : Node) (db : Dev) (m : Msg) (srcA j k mt : Nat) (S' : List Slot) (a
   (out : List Delivery) (fs rxq : List Frame)
 
 /-- **a data packet that is not the last one arrives** -/
-theorem rx_mid (hd : b.s.devs = [db]) (hq : Quiet b.s 0) (hsrc : srcA < 256) (hdst : m.dst = db.source)
+theorem rx_mid (hd : Lead b db) (hq : Quiet b.s 0) (hsrc : srcA < 256) (hdst : m.dst = db.source)
     (hnone : findIdx (sessOf srcA db.source) S' = none) (hj : j < S'.length)
     (hk : 7 * (k + 1) < m.len) (hlen : m.len ≤ 223) :
     rxFrame (b.upd b.tp (S'.set j (sess a0 m srcA db.source mt k)) out fs rxq) (dtFrame srcA m k) =
@@ -93,12 +93,11 @@ theorem rx_mid (hd : b.s.devs = [db]) (hq : Quiet b.s 0) (hsrc : srcA < 256) (hd
         (fs ++ if (k + 1) % tpCtsPackets (tpPacketCount m.len) = 0
                 then [cmFrame db.source srcA (ctsBytes m.pgn (tpPacketCount m.len) (k + 2))] else []) rxq := by
   have hdsrc : db.source ≤ 251 := by
-    obtain ⟨d', hd', hs, _⟩ := hq.dev
-    rw [hd] at hd'; simp at hd'; subst hd'; exact hs
+    exact hd.src hq
   generalize hN : b.upd b.tp (S'.set j (sess a0 m srcA db.source mt k)) out fs rxq = N
   have hNq : Quiet N.s 0 := by subst hN; exact upd_quiet _ _ _ _ _ _ hq
-  have hNd : N.s.devs[0]? = some db := by subst hN; simp [hd]
-  have hfd : findDev N.s.devs db.source = some 0 := by subst hN; simp only [upd_devs, hd]; exact findDev_solo db (by omega)
+  have hNd : N.s.devs[0]? = some db := by subst hN; exact hd.dev0
+  have hfd : findDev N.s.devs db.source = some 0 := by subst hN; exact findDev_lead hd.dev0 (by omega)
   have hfj : findIdx (sessOf srcA db.source) N.slots = some j := by
     subst hN; exact findIdx_set_of_none _ _ _ _ hnone hj (sessOf_sess _ _ _ _ _ _)
   have hsl : N.slots[j]? = some (sess a0 m srcA db.source mt k) := by
@@ -126,7 +125,7 @@ theorem rx_mid (hd : b.s.devs = [db]) (hq : Quiet b.s 0) (hsrc : srcA < 256) (hd
     simp only [upd_setSlot, List.set_set, List.append_nil]
 
 /-- **the last data packet arrives**: EndOfMsgACK, one delivery of exactly the payload, the slot is free again -/
-theorem rx_last (hd : b.s.devs = [db]) (hq : Quiet b.s 0) (hsrc : srcA < 256) (hdst : m.dst = db.source)
+theorem rx_last (hd : Lead b db) (hq : Quiet b.s 0) (hsrc : srcA < 256) (hdst : m.dst = db.source)
     (hnone : findIdx (sessOf srcA db.source) S' = none) (hj : j < S'.length)
     (hk : m.len ≤ 7 * (k + 1)) (hk' : 7 * k < m.len) (hlen : m.len ≤ 223) (hl : m.len ≤ m.data.length) :
     ∃ S'', rxFrame (b.upd b.tp (S'.set j (sess a0 m srcA db.source mt k)) out fs rxq) (dtFrame srcA m k) =
@@ -134,12 +133,11 @@ theorem rx_last (hd : b.s.devs = [db]) (hq : Quiet b.s 0) (hsrc : srcA < 256) (h
         (fs ++ [cmFrame db.source srcA (endAckBytes m.pgn m.len (k + 1))]) rxq ∧
       (∀ a ∈ S'', sessOf srcA db.source a = false) ∧ S''.length = S'.length := by
   have hdsrc : db.source ≤ 251 := by
-    obtain ⟨d', hd', hs, _⟩ := hq.dev
-    rw [hd] at hd'; simp at hd'; subst hd'; exact hs
+    exact hd.src hq
   generalize hN : b.upd b.tp (S'.set j (sess a0 m srcA db.source mt k)) out fs rxq = N
   have hNq : Quiet N.s 0 := by subst hN; exact upd_quiet _ _ _ _ _ _ hq
-  have hNd : N.s.devs[0]? = some db := by subst hN; simp [hd]
-  have hfd : findDev N.s.devs db.source = some 0 := by subst hN; simp only [upd_devs, hd]; exact findDev_solo db (by omega)
+  have hNd : N.s.devs[0]? = some db := by subst hN; exact hd.dev0
+  have hfd : findDev N.s.devs db.source = some 0 := by subst hN; exact findDev_lead hd.dev0 (by omega)
   have hfj : findIdx (sessOf srcA db.source) N.slots = some j := by
     subst hN; exact findIdx_set_of_none _ _ _ _ hnone hj (sessOf_sess _ _ _ _ _ _)
   have hsl : N.slots[j]? = some (sess a0 m srcA db.source mt k) := by
